@@ -217,15 +217,31 @@ ConstOps == {"k0", "k1", "kpi", "kpc", "kv", "knil"}
 FCInit(e) == [form |-> "cinit", of |-> e]
 CInitFrags == {FCInit(FBin(o, l, r)) : o \in {"==", "!="}, l \in ConstOps, r \in ConstOps} \cup
               {FCInit(FCond(c, a, x)) : c \in {"k1"}, a \in ConstOps, x \in ConstOps}
+(* enum with a fixed underlying type (C23 N3030, implemented by cproc: doc/c23.md) and one explicit enumerator.         *)
+(* The enumerator's value is  0 (k = -1)  or  +/-(2^k + d);  ty is the type of the constant expression that denotes it   *)
+(* (its spelling is a hexadecimal literal with the suffix of ty, negated if neg); wrap: the specifier is the operand of  *)
+(* sizeof.  Only well-formed spellings are generated: the magnitude fits ty, negative values have a signed ty.           *)
+FixBases == {"signed char", "short", "int", "long", "long long", "unsigned char", "unsigned"}
+MagLe(k, d, m, e) == k < m \/ (k = m /\ d <= e)          \* 2^k + d <= 2^m + e for the small |d|, |e| and k, m used here
+TyMaxBit(ty) == CASE ty = "int" -> 31 [] ty = "unsigned" -> 32 [] ty = "long" -> 63 [] OTHER -> 64
+FEnumFix(ub, neg, k, d, ty, w) == [form |-> "enumfix", ub |-> ub, neg |-> neg, k |-> k, d |-> d, ty |-> ty, wrap |-> w]
+EnumFixFrags == {x \in {FEnumFix(ub, neg, k, d, ty, w) : ub \in FixBases, neg \in BOOLEAN, k \in {-1, 0, 7, 8, 15, 16, 31, 32, 63, 64},
+                                                        d \in {-3, -1, 0, 1}, ty \in {"int", "unsigned", "long", "ulong"}, w \in BOOLEAN} :
+                   /\ x.k = -1 => (x.d = 0 /\ ~x.neg)
+                   /\ x.k = 0 => x.d \in {0, 1}
+                   /\ x.k = 64 => x.d < 0
+                   /\ x.k >= 0 => MagLe(x.k, x.d, TyMaxBit(x.ty), -1)
+                   /\ x.neg => x.ty \in {"int", "long"}
+                   /\ x.wrap => x.k \in {-1, 31, 63, 64}}
 MiscFrags == {FMisc(k) : k \in {"toplevel_semi", "nested_fn", "missing_semi", "unbalanced_paren", "kw_as_ident", "asm_label", "attr_ok",
    "typedef_asm", "attr_after_paren", "attr_aligned_bad", "attr_aligned_unsup", "vla_static", "vla_init", "vla2_init", "vla_ok",
    "scalar_double_brace", "init_missing_comma", "nullptr_assign", "const_fold_overflow_s", "const_fold_overflow_u",
    "static_init_addr_local", "static_init_addr_compound", "static_init_addr_index", "static_init_addr_ok", "eof_comment_decl"}}
 DeclFrags == SpecFrags \cup ScFrags \cup ObjFrags \cup BfFrags \cup AlignasFrags \cup ArrFrags \cup SaFrags \cup InitFrags
              \cup StrInitFrags \cup StructFrags \cup ParamFrags \cup FdeclFrags \cup RedeclFrags \cup TagFrags \cup EnumFrags
-             \cup MiscFrags \cup SInitFrags \cup CInitFrags
+             \cup MiscFrags \cup SInitFrags \cup CInitFrags \cup EnumFixFrags
 DeclForms == {"spec", "sc", "obj", "bf", "alignas", "arr", "sa", "init", "strinit", "struct", "param", "fdecl", "redecl",
-              "tag", "enum", "misc", "sinit", "cinit"}
+              "tag", "enum", "misc", "sinit", "cinit", "enumfix"}
 
 (* ---- directive fragments -------------------------------------------------------------- *)
 (* d: directive name; for define: redef (relation to the existing macro MF / a macro       *)
